@@ -34,15 +34,19 @@ def gen_paths(ctx, spec_dir, module, cfg, overrides=None, timeout=None, workers=
     return out
 
 
-def binding_demo(ctx, spec_dir, module, cfg, traces, corrupt):
+def binding_demo(ctx, spec_dir, module, cfg, traces, corrupt, drop_act):
     """Non-vacuity of the trace validation: take a recorded trace that TLC accepts, (a) corrupt one
-    logged observation with `corrupt(event)` and (b) drop one event; TLC must reject both, else the
+    logged observation with `corrupt(event)` and (b) drop the first `drop_act` event (callers pass
+    traces whose later observations depend on it); TLC must reject both, else the
     trace specification binds nothing (machinery failure, exit 2)."""
     import copy
     from . import framework
     spec_dir = os.path.join(VERIF, "specs", spec_dir)
     cfgp = os.path.join(spec_dir, cfg)
-    cands = [t for t in traces if len(t["ev"]) >= 3][:40]
+    def droppable(t):
+        idx = [i for i, e in enumerate(t["ev"]) if e["a"] == drop_act]
+        return bool(idx) and idx[0] < len(t["ev"]) - 1      # a later observation depends on it
+    cands = [t for t in traces if len(t["ev"]) >= 3 and droppable(t)][:40]
     acc, _ = framework._validate_shards(spec_dir, module, cfgp, cands, 1, ctx.scratch, ctx.pick(300, 900), verbose=False)
     good = [t for t in cands if t["id"] in acc]
     if not good:
@@ -54,10 +58,9 @@ def binding_demo(ctx, spec_dir, module, cfg, traces, corrupt):
     corrupt(a["ev"][k])
     b = copy.deepcopy(base)
     b["id"] = 900002
-    for i, e in enumerate(b["ev"][:-1]):
-        if e["obs"] != b["ev"][i + 1]["obs"] and (i == 0 or e["obs"] != b["ev"][i - 1]["obs"]):
-            del b["ev"][i]          # an event that changed the observation
-            break
+    idx = [i for i, e in enumerate(b["ev"]) if e["a"] == drop_act]
+    if idx:
+        del b["ev"][idx[0]]
     else:
         b = None
     demo = [base, a] + ([b] if b else [])
